@@ -12,9 +12,9 @@ for d in sorted(glob.glob('/verif/seeded/*')):
     if os.path.exists(np_):
         for l in open(np_):
             if l.strip().startswith('#'):
-                title = re.sub(r'^(C\d+\s*)?[/ ]*[Mm]utation [A-Ha-h]\s*(\(C\d+\))?\s*[-—:]*\s*', '', l.strip('# \n'))
-                title = re.sub(r'^C\d+ mutation [A-Ha-h]:?\s*', '', title)
-                title = re.sub(r'^[Mm]utation [A-Ha-h]\s*(\(C\d+\))?\s*[-—:]*\s*', '', title)
+                title = re.sub(r'^(C\d+\s*)?[/ ]*[Mm]utation [A-Za-z]\s*(\(C\d+\))?\s*[-—:]*\s*', '', l.strip('# \n'))
+                title = re.sub(r'^C\d+ mutation [A-Za-z]:?\s*', '', title)
+                title = re.sub(r'^[Mm]utation [A-Za-z]\s*(\(C\d+\))?\s*[-—:]*\s*', '', title)
                 break
     det = {}
     for r in m['ran']:
